@@ -18,7 +18,12 @@ PER_TEST = 6
 
 def convert(e):
   ev = {'ev': e['ev'], 'method': e['method'], 'cls': e['cls'], 'L': dym(np.asarray(e['L'], dtype=float).reshape(len(e['L']), -1))}
-  if e['ev'] == 'CallTransform':
+  if e['ev'] == 'CallMatrix':
+    ev['M'] = dym(np.asarray(e['M'], dtype=float))
+  elif e['ev'] == 'CallTuples':
+    ev['tuples'] = [[dyv(p) for p in t] for t in e['tuples']]
+    ev['out'] = [int(v) for v in e['out']] if e['method'] == 'predict' else dyv(np.asarray(e['out'], dtype=float))
+  elif e['ev'] == 'CallTransform':
     ev['X'] = dym(np.asarray(e['X'], dtype=float))
     ev['out'] = dym(np.asarray(e['out'], dtype=float))
   else:
@@ -37,6 +42,12 @@ def usable(e, kinds):
   L = np.asarray(e['L'], dtype=float)
   if L.ndim != 2 or L.shape[0] == 0:
     return False
+  if e['ev'] == 'CallMatrix':
+    M = np.asarray(e['M'], dtype=float)
+    return M.ndim == 2 and np.isfinite(M).all()
+  if e['ev'] == 'CallTuples':
+    T = np.asarray(e['tuples'], dtype=float)
+    return T.ndim == 3 and T.shape[2] == L.shape[1] and np.asarray(e['out']).ndim == 1
   if e['ev'] == 'CallTransform':
     return np.asarray(e['X']).ndim == 2 and np.asarray(e['out']).ndim == 2
   P = np.asarray(e['pairs'], dtype=float)
